@@ -74,7 +74,7 @@ func (c Char) Inspect() string {
 	default:
 		if unicode.IsGraphic(rune(c)) {
 			buff.WriteRune(rune(c))
-		} else if c>>8 == 0 {
+		} else if c < utf8.RuneSelf {
 			fmt.Fprintf(&buff, `\x%02x`, c.Rune())
 		} else if c>>16 == 0 {
 			fmt.Fprintf(&buff, `\u%04x`, c.Rune())
